@@ -1,6 +1,6 @@
 #!/bin/bash
 # tools/mutant.sh <patch.diff> <tier> <ID>...   — apply a seeded change to /repo, run checks, always revert.
-P="$1"; T="$2"; shift 2
+P="$(realpath "$1")"; T="$2"; shift 2
 cd /repo || exit 2
 if [ -n "$(git status --porcelain --untracked-files=no)" ]; then echo "repo dirty"; exit 2; fi
 if ! git apply "$P" 2>/dev/null; then
